@@ -626,6 +626,19 @@ class Intrinsics:
         f = z3.Function(f'ghost_{name}', *([z3.IntSort()] * (len(zs) + 1)))
         return f(*zs)
 
+    def s_ambient(self, P):
+        """innermost active `with` model object (None outside any `with`)"""
+        st = getattr(P, 'with_stack', None)
+        return st[-1] if st else None
+
+    def s_callable_name(self, P, f):
+        """dotted name of an external callable / qualified name of a repository function, else None"""
+        if isinstance(f, ExtV):
+            return f.name
+        if isinstance(f, FuncV) and f.self_obj is None:
+            return f.info.qualname
+        return None
+
     def s_implies(self, P, a, b):
         a, b = P.truthy(a), P.truthy(b)
         if a is False or b is True:
